@@ -826,6 +826,14 @@ func (ss *SnapSim) compare(elapsed time.Duration, tEnd int64) *Violation {
 			}
 			return ss.violation("C03.missing", "key missing on target ("+ss.feature(k, path)+")", "key %s%s (source db %d -> target db %d) is not on the target after the replay completed (expiry %d, now %d)", k.Describe(), encFlags(k), k.DB, tdb, E, tEnd+1)
 		}
+		if E != 0 && E > tEnd-L && E <= tEnd+1 && o.ExpireAt >= E && o.ExpireAt <= E+L {
+			// the key's expiry passed WHILE the snapshot was being replayed (virtual latency between the chunks of
+			// one value): the part replayed before it is gone, the part replayed after it re-created the key with a
+			// relative TTL, i.e. an expiry within the tolerated shift (+0..L, see the expiry rule below). For a client
+			// the key is gone or about to go, as on the source; its momentary content is not judged.
+			simrt.Probe("c03_expired_during_replay")
+			continue
+		}
 		if o.T != byte(k.Val.Kind) {
 			return ss.violation("C03.type", "type differs ("+enc+" via "+path+")", "key %s%s: target type %s, snapshot type %s", k.Describe(), encFlags(k), o.TypeName(), k.Val.Kind)
 		}
